@@ -81,6 +81,9 @@ class Hexital:
             valid_indicators[new_indicator.name] = new_indicator
 
         for indicator in valid_indicators.values():
+            if any(indicator.candle_manager is manager for manager in self._candles.values()):
+                # Already running on one of this Hexital's managers, E.G removed and added back
+                continue
             if not indicator.timeframe:
                 indicator.candle_manager = self._candles[DEFAULT_CANDLES]
             elif indicator.timeframe and indicator.timeframe in self._candles:
